@@ -725,7 +725,18 @@ impl C05 {
         // a quarter of the workloads carry adversarial-but-grammatical rules, so that
         // evaluation errors (whose messages list rule / variable names) are exercised too
         o.gen.adversarial = r.chance(1, 4);
-        let wl = gen_workload(&mut r, &o);
+        let mut wl = gen_workload(&mut r, &o);
+        // a long list of rule names and a reference to a rule that does not exist: the error
+        // message enumerates the names (more of them than any "first few" cut keeps)
+        if r.chance(1, 8) {
+            use crate::rules::{Body, Clause, Cmp, Line, Op, Part, Query, Rule};
+            let p = &mut wl.progs[0];
+            let n = 9 + r.usize(12);
+            for i in 0..n {
+                p.rules.push(Rule { name: format!("zq_{}_{}", (b'a' + (i * 7 % 26) as u8) as char, i), when: vec![], body: Body { lets: vec![], lines: vec![Line { alts: vec![Clause::Cmp(Cmp { not: false, q: Query { some: false, parts: vec![Part::Key("zz_no_such_key".into())] }, op: Op::Exists, opnot: true, rhs: None, msg: None })] }] } });
+            }
+            p.rules.push(Rule { name: "zq_ref".into(), when: vec![], body: Body { lets: vec![], lines: vec![Line { alts: vec![Clause::Ref { not: false, name: "zq_no_such_rule".into(), msg: None }] }] } });
+        }
         let nsteps = 1 + r.usize(4);
         let mut steps = Vec::new();
         for _ in 0..nsteps {
